@@ -139,3 +139,37 @@ def state_equality_sees_every_component(s, item):
     from gym_gridverse.state import State
     t = State(s.grid, Agent(s.agent.position, s.agent.orientation, item))
     check('held-item-matters', lambda: (s == t) == (s.agent.grid_object == item))
+
+
+@lemma(args={'g': 'Grid', 'h': 'Grid'}, props=['C03', 'C16'])
+def grid_eq_hash(g, h):
+    hg, hh = hash(g), hash(h)
+    check('equal-grids-hash-alike', lambda: implies(g == h, hg == hh))
+
+
+def rebuilt(s):
+    """an equal state assembled through the public constructors, never hashed before"""
+    from gym_gridverse.agent import Agent
+    from gym_gridverse.grid import Grid
+    from gym_gridverse.state import State
+    return State(Grid(s.grid.objects), Agent(s.agent.position, s.agent.orientation, s.agent.grid_object))
+
+
+@lemma(args={'s': 'State', 'action': 'Action'}, props=['C03'])
+def hashing_is_history_independent(s, action):
+    """hashing a state earlier (it was put in a set, say) must not change what later equal states hash to, also
+    when a step changes a contained object in place (actuate_door opens the door of the copied state)"""
+    from gym_gridverse.envs.transition_functions import actuate_door, transition_with_copy
+    hash(s)                               # history: the input is hashed before the step
+    n = transition_with_copy(actuate_door, s, action)
+    m = rebuilt(n)
+    check('rebuilt-next-state-is-equal', lambda: n == m)
+    check('equal-next-states-hash-alike', lambda: hash(n) == hash(m))
+
+
+@lemma(args={'s': 'State', 'action': 'Action'}, props=['C03'])
+def hashing_is_history_independent_input(s, action):
+    from gym_gridverse.envs.transition_functions import actuate_door, transition_with_copy
+    hash(s)
+    transition_with_copy(actuate_door, s, action)
+    check('input-hash-unchanged-by-the-step', lambda: hash(s) == hash(rebuilt(s)))
